@@ -250,7 +250,10 @@ impl SecretBundle {
 
         let latest_timestamp = y.latest().map(|latest| latest.timestamp()).unwrap_or(0);
         if secret.timestamp() <= latest_timestamp {
-            secret.set_timestamp(latest_timestamp + 1);
+            let timestamp = latest_timestamp
+                .checked_add(1)
+                .ok_or(GroupSecretError::TimestampOverflow)?;
+            secret.set_timestamp(timestamp);
         }
 
         Ok(secret)
@@ -315,6 +318,9 @@ pub enum GroupSecretError {
 
     #[error(transparent)]
     SystemTime(#[from] SystemTimeError),
+
+    #[error("latest secret has the largest possible timestamp, can not generate a later one")]
+    TimestampOverflow,
 }
 
 #[cfg(test)]
